@@ -33,6 +33,16 @@ theorem readPath_string_level (rc : List Comp) (hr : ∀ c ∈ rc, Normal c) (it
 
 example : decodeStr (readPathRaw [47, 70] [[46, 46], [0x8e]] [46, 46, 47, 120]) = [47, 70, 47, 0xC3, 0xA9, 47, 120] := by decide
 
+/-- The configured root may be written in any absolute form (trailing slash, doubled slash, `.`
+    components — config.yaml and per-account roots are used verbatim): `ReadPath` cleans it along
+    with the rest, and the result is under the CLEANED root's components. -/
+theorem readPath_string_level_any_root (root t : Bytes) (hs : root = slash :: t) (items : List Bytes) (name : Bytes) :
+    readPathRaw root items name = renderAbs (readPath ((PathAlg.splitSlash root).foldl step []) items name) ∧
+    (PathAlg.splitSlash root).foldl step [] <+: readPath ((PathAlg.splitSlash root).foldl step []) items name :=
+  ⟨readPathRaw_any_root root t hs items name, PathAlg.readPath_under_root _ items name⟩
+
+example : readPathRaw [47, 70, 47, 46, 47, 47, 71, 47] [[46, 46]] [46, 46, 47, 120] = [47, 70, 47, 71, 47, 120] := by decide
+
 /-- No high byte decodes to an ASCII byte (so not to `/`, `.` or NUL) and ASCII is fixed: the
     decode cannot create, join or remove a path component. -/
 theorem macRoman_keeps_components (c : Comp) :
